@@ -456,7 +456,9 @@ fn segline_case<S: Fl>(ctx: &mut Ctx) {
                 if w > 0.0 && q > mn + 1e-3 * w && q < mx - 1e-3 * w {
                     orc.check(r.is_some(), &format!("seg.{}_line_intersection_t/complete", name), "generic", || format!("q={} in ({},{})", q, mn, mx));
                 }
-                if q < mn || q > mx || w == 0.0 {
+                // outside the range by more than the rounding of `(v - a) / d`
+                let slack = 16.0 * S::EPS * m;
+                if q < mn - slack || q > mx + slack || w == 0.0 {
                     orc.check(r.is_none(), &format!("seg.{}_line_intersection_t/none-outside", name), "generic", || format!("q={} range [{},{}] got {:?}", q, mn, mx, r));
                 }
             }
@@ -798,7 +800,7 @@ fn lyon_eps_for(m: f64, bits: u32) -> f64 {
             1e-3
         } else if n <= 4095.0 {
             1e-2
-        } else if (5096.0..=65535.0).contains(&n) {
+        } else if (4096.0..=65535.0).contains(&n) {
             1e-1
         } else if (65536.0..=8_388_607.0).contains(&n) {
             0.5
@@ -827,17 +829,17 @@ fn lyon_eps_for(m: f64, bits: u32) -> f64 {
 ///  * `cardano-cancellation`: one real root and `|delta0|³ ≤ delta1²/100`, so that
 ///    `delta1 - sqrt(delta0³ + delta1²)` (or `+`) cancels and its cube root carries an error of
 ///    the order of the cube root of the machine epsilon;
-///  * `cardano-ill-conditioned`: `R > 100` (leading coefficient small against the others but
-///    not below `epsilon`): dividing by it makes the trigonometric branch lose about
-///    `sqrt(machine eps)·R`;
-///  * `eps-table-gap`: the magnitude falls in 4096..=5095 where the f32 table of
-///    `epsilon_for` has no arm and yields 1.0.
+///  * `near-degenerate`: `R > 100` (leading coefficient small against the others but not below
+///    `epsilon`): a nearly quadratic "cubic"; normalising by the leading coefficient is
+///    ill-conditioned there.  NOT a defect class: the oracle makes no demand on such inputs
+///    (reported as `skip near-degenerate-leading-coefficient`);
 fn cubic_class(co: [f64; 4], bits: u32) -> (&'static str, f64) {
     let [a, b, c, d] = co;
     let m = a.abs().max(b.abs()).max(c.abs()).max(d.abs());
     let eps = lyon_eps_for(m, bits);
-    let gap = bits == 32 && (4096.0..5096.0).contains(&m.trunc());
-    let base = if gap { "eps-table-gap" } else { "generic" };
+    // (before fix b6989654 the f32 table had no arm for 4096..=5095 and yielded 1.0 there;
+    // the class `eps-table-gap` that marked those inputs is retired with the fix)
+    let base = "generic";
     if a.abs() < eps {
         if b.abs() < eps {
             if c.abs() < eps {
@@ -869,7 +871,7 @@ fn cubic_class(co: [f64; 4], bits: u32) -> (&'static str, f64) {
         }
     }
     if r > 100.0 {
-        return ("cardano-ill-conditioned", r);
+        return ("near-degenerate", r);
     }
     (base, r)
 }
@@ -941,7 +943,10 @@ fn cubicline_case<S: Fl>(ctx: &mut Ctx) {
             let ctrl = [p64(c.from), p64(c.ctrl1), p64(c.ctrl2), p64(c.to)];
             let tsf: Vec<f64> = ts.iter().map(|t| t.f()).collect();
             let finite = ctrl.iter().all(|p| p.0.is_finite() && p.1.is_finite());
-            if finite {
+            if class == "near-degenerate" {
+                orc.check(tsf.iter().all(|t| (0.0..=1.0).contains(t)), "cubic.line_intersections_t/range", "generic", || format!("{:?}", tsf));
+                orc.skip("near-degenerate-leading-coefficient");
+            } else if finite {
                 curve_line_oracle::<S>(&mut orc, "cubic.line_intersections_t", class, &ctrl, p64(l.point), v64(l.vector), &tsf, None, curve_tol::<S>(&ctrl, p64(l.point), rr), (if S::BITS == 32 { 1e-2 } else { 1e-5 }) + 1024.0 * S::EPS * rr);
             } else {
                 orc.skip("non-finite-input");
@@ -973,6 +978,9 @@ fn cubicseg_case<S: Fl>(ctx: &mut Ctx) {
             let pairs: Vec<(f64, f64)> = r.iter().map(|t| (t.0.f(), t.1.f())).collect();
             if degenerate {
                 orc.check(r.is_empty(), "cubic.line_segment_intersections_t/point-segment-none", "generic", || format!("{:?}", pairs));
+            } else if class == "near-degenerate" {
+                orc.check(tsf.iter().all(|t| (0.0..=1.0).contains(t)), "cubic.line_segment_intersections_t/range", "generic", || format!("{:?}", tsf));
+                orc.skip("near-degenerate-leading-coefficient");
             } else {
                 let st = curve_tol::<S>(&ctrl, p64(l.point), rr);
                 curve_line_oracle::<S>(&mut orc, "cubic.line_segment_intersections_t", class, &ctrl, p64(l.point), v64(l.vector), &tsf, Some((p64(s.from), p64(s.to))), st, (if S::BITS == 32 { 1e-2 } else { 1e-5 }) + 1024.0 * S::EPS * rr);
@@ -1027,7 +1035,13 @@ fn polyroots_case<S: Fl>(ctx: &mut Ctx) {
             }
             let mut orc = Oracle::new();
             let (a, b, c, d) = (a.f(), b.f(), c.f(), d.f());
+            if class == "near-degenerate" {
+                orc.skip("near-degenerate-leading-coefficient");
+            }
             for x in &r {
+                if class == "near-degenerate" {
+                    break;
+                }
                 let x = x.f();
                 if !x.is_finite() {
                     continue;
@@ -1123,7 +1137,10 @@ fn tri_case<S: Fl>(ctx: &mut Ctx) {
                 let (y0, y1) = mm(xs, &|p| p.1);
                 let (u0, u1) = mm(ys, &|p| p.0);
                 let (v0, v1) = mm(ys, &|p| p.1);
-                x1 < u0 || u1 < x0 || y1 < v0 || v1 < y0
+                // apart by more than the rounding of the cross products (64 ulp of the magnitude)
+                let mag = xs.iter().chain(ys.iter()).fold(0.0f64, |m, p| m.max(p.0.abs()).max(p.1.abs()));
+                let gap = 64.0 * S::EPS * mag;
+                x1 + gap < u0 || u1 + gap < x0 || y1 + gap < v0 || v1 + gap < y0
             };
             // (slivers are excluded: the barycentric test is ill-conditioned there)
             let fat = |a: V2, b: V2, c: V2| cross(sub(b, a), sub(c, a)).abs() > 1e-3 * norm(sub(b, a)) * norm(sub(c, a));
